@@ -222,7 +222,7 @@ mod trap {
             sa.sa_sigaction = on_fault as *const () as usize;
             sa.sa_flags = libc::SA_SIGINFO | libc::SA_ONSTACK;
             libc::sigemptyset(&mut sa.sa_mask);
-            for sig in [libc::SIGSEGV, libc::SIGBUS, libc::SIGILL, libc::SIGFPE] {
+            for sig in [libc::SIGSEGV, libc::SIGBUS, libc::SIGILL, libc::SIGFPE, libc::SIGABRT] {
                 libc::sigaction(sig, &sa, core::ptr::null_mut());
             }
         }
